@@ -28,8 +28,8 @@ SHAPES = [(0, 0), (0, 4), (1, 2), (2, 2)]      # (start, length) on a 4-step gri
 
 
 def _build(e, rich_bounds):
-    ws = TRIPLES[int(e.mk("words", 0, (len(TRIPLES) if rich_bounds else 4) - 1))]
-    seps = SEP_PAIRS[int(e.mk("seps", 0, (len(SEP_PAIRS) if rich_bounds else 6) - 1))]
+    ws = TRIPLES[int(e.mk("words", 0, (len(TRIPLES) if rich_bounds else 3) - 1))]
+    seps = SEP_PAIRS[int(e.mk("seps", 0, (len(SEP_PAIRS) if rich_bounds else 5) - 1))]
     lead = LEAD[int(e.mk("lead", 0, (3 if rich_bounds else 2) - 1))]
     s = lead + ws[0] + seps[0] + ws[1] + seps[1] + ws[2]
     n = len(s)
@@ -45,8 +45,12 @@ def _build(e, rich_bounds):
     d = min(n, c + (d * n + 3) // 4)
     if d > c:
         spans.append(Span(c, d, STYLES[1]))
-    if e.mkbool("duplicate_span") and spans:
+    dup = int(e.mk("duplicate_mode", 0, 2))
+    if dup == 1 and spans:
         spans.append(Span(spans[0].start, spans[0].end, STYLES[2]))
+    elif dup == 2 and len(spans) == 2 and spans[0].start < spans[1].start < spans[0].end:
+        # a later span equal in value to what remains of the first span after a split at spans[1].start
+        spans.append(Span(spans[1].start, spans[0].end, STYLES[0]))
     return s, spans, ws
 
 
@@ -56,7 +60,7 @@ def _mk(ji, oi, tiers, timeout, wmax):
     @symx("C02-wrap-%s-%s-w%d" % (justify or "default", overflow, wmax), tiers=tiers, timeout=timeout, kind="P", functions=F_W,
           bounds="texts lead+word+sep+word+sep+word with word triples from %r, separator pairs from %r, leading spaces from %r; one "
                  "span with start and length on a 4-step grid over the text, a second from 4 shapes (none, whole, inner, tail: "
-                 "overlapping / nested / empty) plus an optional duplicate; "
+                 "overlapping / nested / empty) plus an optional duplicate (same range, or equal to the tail of the first span with the same style); "
                  "width 2..%d; no_wrap on/off; justify=%s overflow=%s (solver-enumerated, native): fold never drops, duplicates or "
                  "reorders a non-whitespace character; every produced line fits; every output character keeps its ordered span "
                  "styles; a word is split only when it (with the indentation before it) is wider than the width"
@@ -116,5 +120,5 @@ def _mk(ji, oi, tiers, timeout, wmax):
 
 for _ji in range(len(JUSTIFY)):
     for _oi in range(len(OVERFLOW)):
-        _mk(_ji, _oi, ("quick",), 900, 6)
+        _mk(_ji, _oi, ("quick",), 900, 5)
         _mk(_ji, _oi, ("thorough",), 3400, 14)
